@@ -597,10 +597,11 @@ def oracle_c15(rec, driver=None):
         seq.append(rec['hp1'])
     prev = None
     adapted_w = False
+    narrowed = rec.get('narrowed') or {}
     for t, hp in enumerate(seq):
         stats['hooks'] += 1
         for k, v in hp.items():
-            if k in adaptive:
+            if k in adaptive or k in (narrowed.get('names') or []):
                 continue
             if k in hp0 and hp0[k] != v and not (isinstance(v, float) and v != v and hp0[k] != hp0[k]):
                 issues.append(dict(what='hyperparameter-changed', name=k, before=hp0[k], after=v, at=t))
@@ -610,6 +611,10 @@ def oracle_c15(rec, driver=None):
                 issues.append(dict(what='out-of-range', name=name, value=x, lo=lo, hi=hi, at=t))
             elif not (lo <= x <= hi):
                 issues.append(dict(what='rounding-excursion', name=name, value=x, lo=lo, hi=hi, at=t))
+        if narrowed and t == narrowed.get('at'):
+            # (the snapshot of the hook that narrowed the ranges: the adaptive values were computed before, from the old ranges)
+            prev = hp
+            continue
         if kind == 'AIWPSO':
             stats['adaptive_values'] += 1
             # the user's initial w is only replaced by the first adaptation step (it is seen unchanged
@@ -649,12 +654,16 @@ def oracle_c15(rec, driver=None):
                 lines.append(f"n.wca {fbits(a['d_max'])} {N}"); exps.append(b['d_max']); names.append('d_max'); prevs.append(a['d_max'])
         if kind == 'IHS':
             for t, hp in enumerate(seq[1:N + 1]):
+                if narrowed and t + 1 == narrowed.get('at'):
+                    continue        # (value computed before the hook narrowed the ranges this snapshot shows)
                 lines.append(f"n.par {fbits(hp['PAR_min'])} {fbits(hp['PAR_max'])} {N} {t}"); exps.append(hp['PAR']); names.append('PAR'); prevs.append(None)
                 lines.append(f"n.bw {fbits(hp['bw_min'])} {fbits(hp['bw_max'])} {N} {t}"); exps.append(hp['bw']); names.append('bw'); prevs.append(None)
         if kind == 'AIWPSO':
             # w after iteration t is aiwpsoW(w_min, w_max, p, n) for some success count p in 0..n
             n = cfg['n_agents']
-            for a, b in zip(seq, seq[1:]):
+            for ib_, (a, b) in enumerate(zip(seq, seq[1:])):
+                if narrowed and ib_ + 1 == narrowed.get('at'):
+                    continue
                 if b['w'] != a['w']:
                     for p_ in range(n + 1):
                         lines.append(f"n.aiw {fbits(b['w_min'])} {fbits(b['w_max'])} {p_} {n}"); exps.append(b['w']); names.append(('w', p_, n)); prevs.append(None)
